@@ -142,7 +142,7 @@ pub fn build(rule: &str, kind: InKind, input_index: usize, ecal_enabled: bool, w
                     v.push(op::gm_args(0x10, GMArgs::GetVerifyingPredicate));
                     v.push(op::gtf_args(0x11, 0x10, wrong_data_ptr(kind)));
                 }
-                4 => v.push(op::ji(0x3ff_ffff)),
+                4 => v.push(op::ji(0xff_ffff)),
                 _ => {
                     // write into memory the predicate does not own (the transaction image)
                     v.push(op::sw(RegId::ZERO, RegId::ONE, 0));
@@ -169,7 +169,7 @@ pub fn build(rule: &str, kind: InKind, input_index: usize, ecal_enabled: bool, w
             if rng.bool() {
                 v.extend([op::noop(), op::jmpb(RegId::ZERO, 0)]);
             } else {
-                // 262 143 iterations of ≥ 2 gas units: beyond every drawn per-predicate limit
+                // 262 143 iterations of ≥ 2 gas units: beyond every drawn per-predicate limit (≤ 30 000)
                 v.extend([op::movi(0x10, 0x3_ffff), op::subi(0x10, 0x10, 1), op::jnzb(0x10, RegId::ZERO, 0)]);
             }
             v.push(op::ret(RegId::ONE));
